@@ -5,7 +5,7 @@ Case:
   {"files":   [{"dir": [..], "sub": [..], "fname": str, "text": TEXT}, ...],   every file of every directory
    "call":    {"fn": "ns", "root": DIR, "lookups": [DIR..], "allow_collision": bool, "allow_unreg": bool}
             | {"fn": "files", "targets": [file index..], "roots": [DIR..], "lookups": [DIR..], "allow_unreg": bool},
-   "variants": [spelling name, ...]      equivalent ways of passing the same arguments (must give the same outcome)
+   "variants": [spelling name | MIX, ...] equivalent ways of passing the same arguments (must give the same outcome)
    "enum_seed": int                      seed of the shuffle applied to every directory enumeration
    "hashseeds": [int..]                  (subset of cases) subprocess runs under these PYTHONHASHSEED values
    "perturb": {"idx": i, "file": FILE}   (C19) replace file i, read again -> "out2"
@@ -17,6 +17,14 @@ Case:
                                          were the only one: no call may depend on what was read before.
   }
   DIR  = canonical path of a directory as a list of components below the case's temp dir, e.g. ["w0", "alpha"]
+  MIX  = {"mix": 1, "cwd": DIR, "root": [HOW, TYP] (ns), "targets": ARG (files), "roots": ARG (files), "lookups": ARG}
+         every path-like argument of the call in one admissible FORM, every element of it in a SPELLING of its own:
+         ARG = {"form": "list" | "tuple" | "set" | "frozenset" | "keys" (dict view) | "gen" (generator expression) | "iter" | "map" (map(Path, ..))
+                        | "chain" (itertools.chain) | "single" (the one element itself, not in a container) | "none" (None for an empty argument),
+                "items": [[DIR or file index, HOW, TYP], ...]}    in this order; may repeat an element in several spellings; the lookups may
+                                                                  also name the root(s), which belong to the lookup set anyway
+         HOW = "abs" | "slash" | "dotdot" | "link" | "rel" (relative to the MIX's working directory, may start with ..) | "rellink"
+         TYP = "str" | "path"
   TEXT = {"g": bool (text does not parse), "gk": int, "secs": [{"stmts": [STMT..], "mode": MODE}] (two = service)}
   STMT = ["ref", name, major, minor] | ["prim", bits] | ["print", n] | ["bad", k];  MODE = ["sealed"] | ["extent", bits] | ["none"]
 
@@ -265,12 +273,318 @@ def spell_dir(tmp: Path, case: dict, d: list, how: str):
     raise ValueError(how)
 
 
+DIR_HOWS = ["abs", "slash", "dotdot", "link", "rel", "rellink"]
+FILE_HOWS = ["abs", "dotdot", "link", "rel", "rellink"]
+FORMS = ["list", "tuple", "set", "frozenset", "keys", "gen", "iter", "map", "chain"]
+ONE_SHOT_FORMS = ("gen", "iter", "map", "chain")
+
+
+def spell_path(tmp: Path, case: dict, cwd: str, d: list, how: str, typ: str, tail: typing.Optional[str] = None):
+    """One spelling of directory `d` (or of the file `tail` below it): HOW x TYP of the module docstring."""
+    ab = str(tmp / "/".join(d))
+    if how in ("abs", "slash"):
+        s = ab
+    elif how == "dotdot":
+        s = str(tmp / d[0] / ".." / "/".join(d)) if len(d) > 1 else ab + "/."
+    elif how in ("link", "rellink"):
+        s = str(tmp / "links" / ("L%d" % all_dirs(case).index(list(d))))
+    elif how == "rel":
+        s = ab
+    else:
+        raise ValueError(how)
+    if how in ("rel", "rellink"):
+        s = os.path.relpath(s, cwd)
+    if tail is not None:
+        s = s.rstrip("/") + "/" + tail
+    elif how == "slash":
+        s += "/"
+    return Path(s) if typ == "path" else s
+
+
+def make_form(items: list, form: str):
+    """The argument object handed to the library; the one-shot forms can be iterated exactly once."""
+    import itertools
+
+    if form == "list":
+        return list(items)
+    if form == "tuple":
+        return tuple(items)
+    if form == "set":
+        return set(items)
+    if form == "frozenset":
+        return frozenset(items)
+    if form == "keys":
+        return dict.fromkeys(items).keys()
+    if form == "gen":
+        return (x for x in items)
+    if form == "iter":
+        return iter(list(items))
+    if form == "map":
+        return map(Path, list(items))
+    if form == "chain":
+        k = len(items) // 2
+        return itertools.chain(items[:k], items[k:])
+    if form == "single":
+        assert len(items) == 1
+        return items[0]
+    if form == "none":
+        assert not items
+        return None
+    raise ValueError(form)
+
+
+def _uniq(xs):
+    out = []
+    for x in xs:
+        if x not in out:
+            out.append(x)
+    return out
+
+
+def mix_applies(call: dict, mix: dict) -> bool:
+    """The MIX passes the same sets as the call: every argument names exactly the call's elements (in any order, any number of
+    times, any spelling); the lookups may additionally name root directories, which are part of the lookup set anyway."""
+    def form_ok(arg):
+        n = len(arg["items"])
+        return (arg["form"] != "single" or n == 1) and (arg["form"] != "none" or n == 0)
+
+    lk = mix.get("lookups")
+    if lk is None or not form_ok(lk):
+        return False
+    named = _uniq([list(x[0]) for x in lk["items"]])
+    want = _uniq([list(x) for x in call["lookups"]])
+    if call["fn"] == "ns":
+        own = [list(call["root"])]
+        if "root" not in mix:
+            return False
+    else:
+        ts, rs = mix.get("targets"), mix.get("roots")
+        if ts is None or rs is None or not form_ok(ts) or not form_ok(rs):
+            return False
+        if sorted(set(x[0] for x in ts["items"])) != sorted(set(call["targets"])) or not ts["items"]:
+            return False
+        own = _uniq([list(x) for x in call["roots"]])
+        if sorted(_uniq([list(x[0]) for x in rs["items"]])) != sorted(own):
+            return False
+    return sorted(d for d in named if d not in own) == sorted(d for d in want if d not in own)
+
+
+def spell_mix(tmp: Path, case: dict, mix: dict) -> typing.Optional[typing.Tuple[str, tuple, dict, str]]:
+    call = case["call"]
+    if not mix_applies(call, mix):
+        return None
+    kw = {"allow_unregulated_fixed_port_id": bool(call["allow_unreg"])}
+    cwd = str(tmp / "/".join(mix.get("cwd") or [])) if mix.get("cwd") else str(tmp)
+    if not os.path.isdir(cwd):
+        return None
+    known = all_dirs(case)
+
+    def arg(a, files=None):
+        items = []
+        for ref, how, typ in a["items"]:
+            if files is None:
+                if list(ref) not in known:
+                    return KeyError
+                items.append(spell_path(tmp, case, cwd, list(ref), how, typ))
+            else:
+                f = files[ref]
+                if list(f["dir"]) not in known:
+                    return KeyError
+                items.append(spell_path(tmp, case, cwd, list(f["dir"]), how, typ, "/".join(list(f["sub"]) + [f["fname"]])))
+        return make_form(items, a["form"])
+
+    ls = arg(mix["lookups"])
+    if ls is KeyError:
+        return None
+    if call["fn"] == "ns":
+        kw["allow_root_namespace_name_collision"] = bool(call["allow_collision"])
+        r = spell_path(tmp, case, cwd, list(call["root"]), mix["root"][0], mix["root"][1])
+        return "read_namespace", (r, ls), kw, cwd
+    ts, rs = arg(mix["targets"], case["files"]), arg(mix["roots"])
+    if ts is KeyError or rs is KeyError:
+        return None
+    return "read_files", (ts, rs, ls), kw, cwd
+
+
+def gen_mix(rng: random.Random, call: dict, files: typing.List[dict]) -> dict:
+    """Every path-like argument in a FORM of its own, every element in a SPELLING of its own, elements repeated in other spellings."""
+    def sp(hows):
+        return [rng.choice(hows), rng.choice(["str", "str", "path"])]
+
+    def pick_form():
+        return rng.choice(FORMS + ["single", "single", "single", "none"])
+
+    def build(base: list, alias_pool: list, hows, none_ok: bool):
+        """base = the elements that must be named; alias_pool = elements that may be named (again) without changing the set."""
+        form = pick_form()
+        if form == "single":
+            if len(base) == 1:
+                return {"form": form, "items": [[base[0]] + sp(hows)]}
+            if not base and alias_pool:
+                return {"form": form, "items": [[rng.choice(alias_pool)] + sp(hows)]}
+            form = rng.choice(FORMS)
+        if form == "none":
+            if not base and none_ok:
+                return {"form": form, "items": []}
+            form = rng.choice(FORMS)
+        items = [[b] + sp(hows) for b in base]
+        for _ in range(rng.choice([0, 0, 1, 1, 2])):
+            if alias_pool:
+                items.append([rng.choice(alias_pool)] + sp(hows))
+        rng.shuffle(items)
+        return {"form": form, "items": items}
+
+    dirs = call_dirs(call)
+    if call["fn"] == "files":
+        dirs = dirs + [list(files[i]["dir"]) for i in call["targets"]]
+    cwds: typing.List[list] = [[], [], ["elsewhere"]] + [list(d[:-1]) for d in dirs] + [list(rng.choice(dirs))]
+    if call["fn"] == "files":
+        # EXCLUDED INPUT CLASS (genuine defect of the unchanged pydsdl, reported; see the C10 entry of reg/ns.py): a root namespace
+        # directory of read_files spelled "." (the working directory IS the root).  Every relative target - also one that lies
+        # under another root, e.g. ../../w1/beta/A.1.0.dsdl - is "relative to" Path(".") as a pure path, so that root is inferred
+        # for it and a bare ValueError ("is not in the subpath of") escapes.  The working directory of a MIX is therefore never
+        # one of the roots of a read_files call.
+        cwds = [c for c in cwds if c not in [list(x) for x in call["roots"]]]
+    mix: dict = {"mix": 1, "cwd": rng.choice(cwds)}
+    lks = _uniq([list(x) for x in call["lookups"]])
+    if call["fn"] == "ns":
+        root = list(call["root"])
+        mix["root"] = sp(DIR_HOWS)
+        mix["lookups"] = build(lks, _uniq(lks + [root]), DIR_HOWS, True)
+        return mix
+    tix = _uniq(list(call["targets"]))
+    roots = _uniq([list(x) for x in call["roots"]])
+    mix["targets"] = build(tix, tix, FILE_HOWS, False)
+    mix["roots"] = build(roots, roots, DIR_HOWS, False)
+    mix["lookups"] = build(lks, _uniq(lks + roots), DIR_HOWS, True)
+    return mix
+
+
+def shrink_mix(v: dict) -> typing.Iterable[dict]:
+    """Simpler MIXes: working directory <tmp>, plain list form, plain spelling, no repeated element - one step at a time."""
+    if v.get("cwd"):
+        m = json.loads(json.dumps(v))
+        m["cwd"] = []
+        yield m
+    if "root" in v and v["root"] != ["abs", "str"]:
+        m = json.loads(json.dumps(v))
+        m["root"] = ["abs", "str"]
+        yield m
+    for a in ("targets", "roots", "lookups"):
+        if a not in v:
+            continue
+        if v[a]["form"] != "list":
+            m = json.loads(json.dumps(v))
+            m[a]["form"] = "list"
+            yield m
+        for j, it in enumerate(v[a]["items"]):
+            if v[a]["form"] not in ("single", "none"):
+                m = json.loads(json.dumps(v))
+                m[a]["items"].pop(j)
+                yield m  # (does not apply - and is skipped - if the element was the only mention of a required one)
+            if it[1:] != ["abs", "str"]:
+                m = json.loads(json.dumps(v))
+                m[a]["items"][j][1:] = ["abs", "str"]
+                yield m
+
+
+def mix_features(call: dict, v: dict) -> typing.Iterable[str]:
+    if not mix_applies(call, v):
+        yield "mix:not-applicable"
+        return
+    cwd = v.get("cwd") or []
+    own = [list(call["root"])] if call["fn"] == "ns" else [list(x) for x in call.get("roots", [])]
+    yield "mix-cwd:" + ("tmp" if not cwd else "elsewhere" if cwd == ["elsewhere"] else "an-argument-directory" if cwd in call_dirs(call)
+                        else "above-an-argument-directory" if any(d[: len(cwd)] == cwd for d in call_dirs(call)) else "other")
+    if "root" in v:
+        yield "mix-root:%s/%s" % tuple(v["root"])
+    for a in ("targets", "roots", "lookups"):
+        if a not in v:
+            continue
+        x = v[a]
+        yield "mix-form:%s:%s" % (a, x["form"])
+        if x["form"] in ONE_SHOT_FORMS:
+            yield "mix-form:one-shot-iterable"
+        for it in x["items"]:
+            yield "mix-spelling:%s:%s/%s" % (a, it[1], it[2])
+        refs = [json.dumps(it[0]) for it in x["items"]]
+        if len(set(refs)) < len(refs):
+            yield "mix:%s:element-repeated-in-other-spelling" % a
+        if a == "lookups":
+            al = [it for it in x["items"] if list(it[0]) in own]
+            if al:
+                yield "mix:lookups-name-a-root"
+                if x["form"] == "single":
+                    yield "mix:lookups-single-value-naming-a-root:" + ("canonical" if al[0][1] in ("abs", "slash") else "alias")
+            if x["form"] == "single" and not al:
+                yield "mix:lookups-single-value:" + ("canonical" if x["items"][0][1] in ("abs", "slash") else "alias")
+
+
+def mix_universe(call: dict, files: typing.List[dict]) -> typing.Dict[str, typing.List[dict]]:
+    """Small-scope enumeration for the corpus: one argument at a time in every FORM x every SPELLING (the other arguments as plain
+    lists of absolute strings), the lookups also with another spelling of a root added / as the only element.  Keyed by form."""
+    out: typing.Dict[str, typing.List[dict]] = {}
+    lks = _uniq([list(x) for x in call["lookups"]])
+    if call["fn"] == "ns":
+        own, args = [list(call["root"])], {"lookups": lks}
+    else:
+        own = _uniq([list(x) for x in call["roots"]])
+        args = {"targets": _uniq(list(call["targets"])), "roots": own, "lookups": lks}
+
+    def plain():
+        m: dict = {"mix": 1, "cwd": []}
+        if call["fn"] == "ns":
+            m["root"] = ["abs", "str"]
+        for a, els in args.items():
+            m[a] = {"form": "list", "items": [[e, "abs", "str"] for e in els]}
+        return m
+
+    for a, els in args.items():
+        hows = FILE_HOWS if a == "targets" else DIR_HOWS
+        for form in FORMS + ["single", "none"]:
+            for hi, how in enumerate(hows):
+                for extra in ([None] if a != "lookups" else [None] + own[:1]):
+                    items = [[e, how, ("str", "path")[(hi + j) % 2]] for j, e in enumerate(els)]
+                    if extra is not None:
+                        items.append([extra, how, ("path", "str")[hi % 2]])
+                    if (form == "single" and len(items) != 1) or (form == "none" and (items or a != "lookups")):
+                        continue
+                    m = plain()
+                    m[a] = {"form": form, "items": items}
+                    out.setdefault(form, []).append(m)
+    if call["fn"] == "ns":
+        for how in DIR_HOWS:
+            for typ in ("str", "path"):
+                m = plain()
+                m["root"] = [how, typ]
+                out.setdefault("list", []).append(m)
+    return out
+
+
+def describe_variant(v) -> str:
+    if not isinstance(v, dict):
+        return str(v)
+
+    def a(x):
+        return "%s[%s]" % (x["form"], ", ".join("%s:%s/%s" % ("/".join(i[0]) if isinstance(i[0], list) else "#%s" % i[0], i[1], i[2]) for i in x["items"]))
+
+    parts = ["cwd=<tmp>/%s" % "/".join(v.get("cwd") or [])]
+    if "root" in v:
+        parts.append("root=%s/%s" % tuple(v["root"]))
+    for k in ("targets", "roots", "lookups"):
+        if k in v:
+            parts.append("%s=%s" % (k, a(v[k])))
+    return "mix(" + "; ".join(parts) + ")"
+
+
 NS_VARIANTS = ["rel", "slash", "link", "dotdot", "pathobj", "dup", "reorder", "rootlink", "single"]
 FILES_VARIANTS = ["names", "relcwd", "relnoroots", "relelsewhere", "linkroots", "linkfiles", "dup", "single", "slash", "pathobj"]
 
 
-def spell_call(tmp: Path, case: dict, variant: str) -> typing.Optional[typing.Tuple[str, tuple, dict, str]]:
+def spell_call(tmp: Path, case: dict, variant) -> typing.Optional[typing.Tuple[str, tuple, dict, str]]:
     """(function name, positional args, kwargs, cwd) for one spelling; None if the spelling does not apply."""
+    if isinstance(variant, dict):
+        return spell_mix(tmp, case, variant)
     call = case["call"]
     kw = {"allow_unregulated_fixed_port_id": bool(call["allow_unreg"])}
     cwd = str(tmp / "elsewhere")
@@ -431,7 +745,7 @@ def run_on_tree(tmp: Path, case: dict) -> dict:
     for k, v in enumerate(case.get("variants", [])):
         o = one_call(tmp, case, v, "%s/%d" % (seed, k))
         if o is not None and hard(o) != hard(base):
-            inv.append("spelling %s: %s" % (v, json.dumps(hard(o), sort_keys=True)[:300]))
+            inv.append("spelling %s: %s" % (describe_variant(v), json.dumps(hard(o), sort_keys=True)[:300]))
     for hs in case.get("hashseeds", []):
         o = subprocess_call(tmp, case, hs)
         if hard(o) != hard(base):
@@ -1003,11 +1317,19 @@ def gen_call(rng: random.Random, files, layout, fn=None, clean=False) -> dict:
     return {"fn": "files", "targets": tix, "roots": roots, "lookups": lks, "allow_unreg": pids_unreg}
 
 
-def add_variants(rng: random.Random, case: dict, k: int) -> None:
+def add_variants(rng: random.Random, case: dict, k: int, mixes: int = 1) -> None:
     names = NS_VARIANTS if case["call"]["fn"] == "ns" else FILES_VARIANTS
     case["variants"] = rng.sample(names, min(k, len(names)))
     if rng.random() < 0.05:
         case["hashseeds"] = rng.sample([0, 1, 2, 3, 7, 42, 1234, 99999], 2)
+    # argument forms x spellings (MIX): drawn from a generator derived from the case's own seed (which came from `rng`), so that
+    # the stream of trees and calls is the same with and without them
+    mrng = random.Random("mix/%s/%d" % (case.get("enum_seed", 0), len(case["files"])))
+    for _ in range(mixes):
+        case["variants"].append(gen_mix(mrng, case["call"], case["files"]))
+    for k2, h in enumerate(case.get("history", [])):
+        if mrng.random() < 0.3:
+            h["variant"] = gen_mix(mrng, h["call"], reattribute(case["files"], h["call"]))
 
 
 def gen_versions(rng: random.Random, prop: str) -> dict:
@@ -1434,6 +1756,18 @@ class NsSuite(common.Suite):
             # promotion: dependency first pulled in transitively, later a target itself
             out.append(fl([F(A, [], "U.2.0.dsdl", S(["ref", "alpha.U", 1, 0], ["print", 5])), F(A, [], "U.1.0.dsdl", S(["print", 6])), F(A, [], "V.1.0.dsdl", S())], [0, 1], [A]))
             out.append(fl([F(A, [], "U.2.0.dsdl", S(["ref", "alpha.U", 1, 0])), F(A, [], "U.3.0.dsdl", S(["ref", "alpha.U", 1, 0])), F(A, [], "U.1.0.dsdl", S(["print", 6]))], [0, 1], [A]))
+        if prop in ("C09", "C10", "C15"):
+            # every path-like argument in every admissible form x every spelling, one argument at a time (small scope, exhaustive)
+            g_ab = [F(A, [], "A.1.0.dsdl", S(["ref", "B", 1, 0], ["ref", "beta.D", 2, 1])), F(A, ["x"], "B.1.0.dsdl", S(["ref", "alpha.B", 1, 0], ["print", 1])),
+                    F(A, [], "B.1.0.dsdl", S(["prim", 8])), F(B, [], "6200.D.2.1.dsdl", S(["prim", 16], ["print", 2]))]
+            g_a = [F(A, [], "A.1.0.dsdl", S(["ref", "B", 1, 0], ["print", 1])), F(A, ["x"], "B.1.0.dsdl", S(["ref", "alpha.B", 1, 0])), F(A, [], "B.1.0.dsdl", S(["prim", 8]))]
+            g_nest = [F(A, [], "A.1.0.dsdl", S()), F(A, ["x"], "B.1.0.dsdl", S())]
+            for base in (ns(g_ab, lookups=[B]), ns(g_a), ns(g_ab, lookups=[B, ["w1", "gamma"]]), ns(g_nest, lookups=[A + ["x"]]),
+                         fl(g_ab, [0], [A], [B]), fl(g_ab, [1, 0], [A, B]), fl(g_a, [0], [A]), fl(g_nest, [0], [A], [A + ["x"]])):
+                for form, mixes in sorted(mix_universe(base["call"], base["files"]).items()):
+                    c = json.loads(json.dumps(base))
+                    c["variants"] = mixes
+                    out.append(c)
         if prop == "C10":
             # finding F9
             out.append(ns([F(A, [], "A.1.0.dsdl", S()), F(A, [], "7000.A.1.0.dsdl", S())], variants=[]))
@@ -1724,6 +2058,13 @@ class NsSuite(common.Suite):
             c = dict(case)
             c.pop("hashseeds")
             yield c
+        for k, v in enumerate(case.get("variants") or []):
+            if not isinstance(v, dict):
+                continue
+            for m in shrink_mix(v):
+                c = dict(case)
+                c["variants"] = case["variants"][:k] + [m] + case["variants"][k + 1:]
+                yield c
         for k in range(len(case.get("history", []))):
             c = json.loads(json.dumps(case))
             c["history"].pop(k)
@@ -1747,6 +2088,9 @@ class NsSuite(common.Suite):
             for cc in [c["call"]] + [h["call"] for h in c.get("history", [])]:
                 if cc["fn"] == "files":
                     cc["targets"] = [t - (1 if t > k else 0) for t in cc["targets"] if t != k]
+            for m in list(c.get("variants", [])) + [h.get("variant") for h in c.get("history", [])]:
+                if isinstance(m, dict) and "targets" in m:
+                    m["targets"]["items"] = [[i[0] - (1 if i[0] > k else 0), i[1], i[2]] for i in m["targets"]["items"] if i[0] != k]
             if c.get("perturb") and c["perturb"]["idx"] > k:
                 c["perturb"]["idx"] -= 1
             yield c
@@ -1829,7 +2173,7 @@ class NsSuite(common.Suite):
                 yield "history-fn:%s->%s" % (h["call"]["fn"], call["fn"])
                 yield "history-res:" + str((ho.get("out") or {}).get("res"))
                 if h.get("variant", "base") != "base":
-                    yield "history-spelling:" + h["variant"]
+                    yield "history-spelling:" + (h["variant"] if isinstance(h["variant"], str) else "mix")
         for f in case["files"]:
             p = parse_strict(f["fname"]) if is_def_file(f["fname"]) else None
             if p and p[0] is not None and p[0] in (0, 1, 511, 512, 8191, 8192):
@@ -1839,7 +2183,11 @@ class NsSuite(common.Suite):
             if out.get("res") == "ok" and any(t["pid"] == 0 for t in out["direct"]):
                 yield "result:port-id-0"
         for v in case.get("variants", []):
-            yield "spelling:" + v
+            if isinstance(v, dict):
+                yield "spelling:mix"
+                yield from mix_features(call, v)
+            else:
+                yield "spelling:" + v
         if case.get("hashseeds"):
             yield "hashseed-subprocess"
         if case.get("perturb"):
